@@ -56,6 +56,34 @@ StringAt(dblock, dlen, doff) ==
     LET dhits == {dk \in 1..Len(dblock) : BlockOffsets(dblock, dlen)[dk] = doff}
     IN IF dhits = {} THEN -1 ELSE dblock[CHOOSE dk \in dhits : TRUE]
 
+\* ---- routes: every public way of reaching record i through the lazy iterator --------------------------
+\* A route is [kind, a, b]; RouteIdx gives the 0-based record indices it must yield, in order, on a table of
+\* dn records.  (LazyRecordIterator is a plain Iterator: next, nth, skip, step_by, last and their
+\* compositions are its public surface; it is not double-ended.)
+DCeil(da, db) == (da + db - 1) \div db
+FromTo(dlo, dhi) == [di \in 1..(IF dhi >= dlo THEN dhi - dlo + 1 ELSE 0) |-> dlo + di - 1]
+Stepped(dlo, dn, dstep) == [di \in 1..(IF dlo < dn THEN DCeil(dn - dlo, dstep) ELSE 0) |-> dlo + (di - 1) * dstep]
+RouteIdx(dr, dn) ==
+    CASE dr.kind = "iter"     -> FromTo(0, dn - 1)
+      [] dr.kind = "nth"      -> IF dr.a < dn THEN <<dr.a>> ELSE <<>>
+      [] dr.kind = "skip"     -> FromTo(dr.a, dn - 1)
+      [] dr.kind = "step"     -> Stepped(0, dn, dr.a)
+      [] dr.kind = "skipstep" -> Stepped(dr.a, dn, dr.b)
+      [] dr.kind = "last"     -> IF dn > 0 THEN <<dn - 1>> ELSE <<>>
+      [] dr.kind = "nthnth"   -> (IF dr.a < dn THEN <<dr.a>> ELSE <<>>) \o (IF dr.a + dr.b + 1 < dn THEN <<dr.a + dr.b + 1>> ELSE <<>>)
+RouteRec(dk, da, db) == [kind |-> dk, a |-> da, b |-> db]
+RoutesFor(dn) ==
+    {RouteRec("iter", 0, 0), RouteRec("last", 0, 0)}
+    \cup {RouteRec("nth", da, 0) : da \in {0, 1, 2, dn \div 2} \cup (IF dn > 0 THEN {dn - 1} ELSE {}) \cup {dn}}
+    \cup {RouteRec("skip", da, 0) : da \in {1, 2} \cup (IF dn > 0 THEN {dn - 1} ELSE {}) \cup {dn}}
+    \cup {RouteRec("step", da, 0) : da \in {1, 2, 3}}
+    \cup {RouteRec("skipstep", 1, 2), RouteRec("skipstep", 2, 3)}
+    \cup {RouteRec("nthnth", 0, 0), RouteRec("nthnth", 1, 1), RouteRec("nthnth", 0, 2)}
+\* the byte position an item reached by skipping must be read from: skipped records advance the cursor by
+\* the record size; `4 * field_count` is the same number exactly for layouts made of 32-bit fields only
+SkipStride(dsch) == RecordSize(dsch)
+AllWide(dsch) == \A di \in 1..Len(dsch) : TypeSize(dsch[di].ty) = 4
+
 \* ---- key lookup ---------------------------------------------------------------------------------
 \* dkeys: the key column (one value per record, 0-based record index = position - 1)
 HashLookup(dkeys, dk) ==                          \* HashMap::insert overwrites: the LAST record wins
